@@ -101,10 +101,10 @@ def gen_harnesses(tier, seed):
             if len(cand) < k:
                 break
             vals = rng.sample(cand, k)
-            if any(m.get("ann") == lit_ann(vals) for m in methods):
-                continue       # an identical signature registered twice is a replacement (C02), not an overlap
+            if any(m.get("vals") == frozenset((type(v).__name__, repr(v)) for v in vals) for m in methods):
+                continue       # the same values (in any order) are the same signature: a replacement (C02, C15), not an overlap
             used.update(repr(v) for v in vals)
-            methods.append(dict(kind="ann", ann=lit_ann(vals), bound=lit_bound(vals), prio=rng.choice((0, 0, 0, 0, 1)),
+            methods.append(dict(kind="ann", ann=lit_ann(vals), bound=lit_bound(vals), prio=rng.choice((0, 0, 0, 0, 1)), vals=frozenset((type(v).__name__, repr(v)) for v in vals),
                                 pred="any(type(x) is not float and x == _v for _v in " + repr(tuple(vals)) + ")"))
         if rng.random() < 0.5:
             methods.append(dict(kind="dep", bound="int", pred="x > 4", prio=0))     # a non-literal dependent method next to the literals
@@ -114,7 +114,7 @@ def gen_harnesses(tier, seed):
         rng.shuffle(methods)
         checks = [("int", "int", None), ("bool", "bool", None), ("str", "str", "len(x) <= 2")]
         src = gen.one_position_module(methods, list(range(-2, 10)) + [True, False, "a", "b", "ab", "", "{", "{{", "}", "{}", "{x}", "a{", "'", '"', "\\", "%s"], checks)
-        out.append((f"c11_lit_{i}", src, dict(family="Literal", methods=[{k: v for k, v in m.items()} for m in methods])))
+        out.append((f"c11_lit_{i}", src, dict(family="Literal", methods=[{k: v for k, v in m.items() if k != "vals"} for m in methods])))
 
     # Literal types at DIFFERENT positions of the methods of one rank: f(x: Literal[a], y: int) next to f(x: int, y: Literal[b])
     for i, (a_, b_, prio) in enumerate(((1, 2, (0, 0, 0)), (0, 0, (0, 0, 0)), (3, 1, (1, 0, 0)), (2, 2, (0, 0, 1)))):
